@@ -36,6 +36,16 @@ def check_case(schema, tname, val, codec=None, rw=None):
         if got != expected:
             return ("Python encode(%r) of %s differs from the documented wire format" % (e, tname),
                     {'endianness': e, 'expected': expected.hex(), 'observed': bytes(got).hex()})
+    # "every value assignable": enum fields assigned by name / enumerator object (own or foreign enum) instead of number
+    ea = pyh.EnumArgs(codec.ns, len(expected) % 4)
+    try:
+        got = codec.build(tname, val, ea).encode('<')
+    except Exception as ex:
+        return ("encode of a valid %s whose enum fields were assigned by %s raised %s: %s" % (
+            tname, '/'.join(sorted(ea.used)), type(ex).__name__, ex), {'exception': common.exc_info(ex)})
+    if ea.used and got != rw.encode(tname, val, '<')[0]:
+        return ("Python encode('<') of %s differs from the wire format when enum fields are assigned by %s" % (
+            tname, '/'.join(sorted(ea.used))), {'observed': bytes(got).hex(), 'expected': rw.encode(tname, val, '<')[0].hex()})
     return None
 
 
